@@ -267,3 +267,149 @@ def _(rng):
     return dict(empirical_covariance=_spd(rng, w * n), sparsity_weight=abs(fl(rng, 0, 2)), window_size=w, num_data_series=n,
                 rho=rng.choice([0.5, 1.0, 2.0]), rho_update=None, max_iterations=rng.randint(1, 40),
                 absolute_tolerance=1e-6, relative_tolerance=1e-6, verbose=False)
+
+MS = 'fast_ticc.containers.model_state.'
+AR = 'fast_ticc.containers.arguments.'
+CM = 'fast_ticc.cluster_maintenance.'
+
+
+def _user_args(rng, k=3, m=None, lam=0.11, beta=5.0):
+    from fast_ticc.containers import arguments
+    return arguments.UserArguments(sparsity_weight=lam, iteration_limit=rng.randint(1, 4), label_switching_cost=beta,
+                                   min_cluster_size=m if m is not None else rng.randint(1, 3),
+                                   min_meaningful_covariance=0.0, num_clusters=k, num_processors=1,
+                                   window_size=rng.randint(1, 3), biased_covariance=rng.random() < 0.5)
+
+
+def _cluster(rng, nw=None, members=None):
+    from fast_ticc.containers import model_state
+    nw = nw or rng.randint(1, 4)
+    return model_state.ClusterParameters(computed_covariance=_spd(rng, nw), empirical_covariance=_spd(rng, nw),
+                                         graphical_lasso_cost=None, inverse_covariance=_spd(rng, nw), log_determinant=fl(rng),
+                                         member_points=members if members is not None else sorted(rng.sample(range(20), rng.randint(0, 6))),
+                                         stacked_data_mean=farr(rng, nw), train_inverse=_spd(rng, nw))
+
+
+def _model(rng, sizes=None, k=None, m=None, nw=2, shuffle=True):
+    """well-formed ModelState: labels assigned through the real setter"""
+    from fast_ticc.containers import model_state
+    if sizes is None:
+        k = k or rng.randint(2, 4)
+        sizes = [rng.randint(0, 7) for _ in range(k)]
+    k = len(sizes)
+    labels = [c for c, s in enumerate(sizes) for _ in range(s)]
+    if shuffle:
+        rng.shuffle(labels)
+    if not labels:
+        labels = [0]
+    data = farr(rng, len(labels), nw)
+    ms = model_state.ModelState.empty_model(_user_args(rng, k=k, m=m), data)
+    for c in ms.clusters:
+        c.computed_covariance = _spd(rng, nw) * rng.choice([0.5, 1, 2, 3])
+        c.empirical_covariance = _spd(rng, nw)
+        c.train_inverse = _spd(rng, nw)
+        c.inverse_covariance = c.train_inverse
+        c.stacked_data_mean = farr(rng, nw)
+        c.log_determinant = 0.0
+    ms.point_labels = labels
+    ms.label_assignment_cost = 1.0
+    return ms, data
+
+
+@gen(MS + 'ClusterParameters.__init__')
+def _(rng):
+    from fast_ticc.containers import model_state
+    c = _cluster(rng)
+    mp = rng.choice([None, [], [3, 1, 2], [0, 4, 9]])
+    return dict(self=model_state.ClusterParameters.__new__(model_state.ClusterParameters), computed_covariance=c.computed_covariance,
+                empirical_covariance=None, graphical_lasso_cost=1.5, inverse_covariance=c.inverse_covariance,
+                log_determinant=0.25, member_points=mp, stacked_data_mean=c.stacked_data_mean, train_inverse=c.train_inverse)
+
+
+@gen(MS + 'ClusterParameters.member_points.setter')
+def _(rng):
+    return dict(self=_cluster(rng), new_members=rng.choice([None, [], [5, 2, 7], [1, 2, 3], [0]]))
+
+
+for _name in ('size', 'shallow_copy', 'deep_copy'):
+    GENS[MS + 'ClusterParameters.' + _name] = (lambda rng: dict(self=_cluster(rng)))
+
+
+@gen(MS + 'ClusterParameters.empty_cluster')
+def _(rng):
+    return {}
+
+
+@gen(MS + 'ModelState.empty_model')
+def _(rng):
+    return dict(user_args=_user_args(rng, k=rng.randint(0, 4)), stacked_training_data=farr(rng, 4, 2))
+
+
+@gen(MS + 'ModelState._update_cluster_membership')
+def _(rng):
+    ms, _ = _model(rng)
+    mode = rng.random()
+    if mode < 0.2:
+        ms._point_labels = None if rng.random() < 0.5 else []
+    else:
+        ms._point_labels = [rng.randint(0, len(ms.clusters) - 1) for _ in range(rng.randint(1, 12))]
+    return dict(self=ms)
+
+
+@gen(MS + 'ModelState.point_labels.setter')
+def _(rng):
+    ms, _ = _model(rng)
+    if rng.random() < 0.3:
+        new = list(ms._point_labels)
+    else:
+        new = [rng.randint(0, len(ms.clusters) - 1) for _ in range(rng.randint(1, 12))]
+    return dict(self=ms, new_labels=new)
+
+
+GENS[MS + 'ModelState.shallow_copy'] = lambda rng: dict(self=_model(rng)[0])
+GENS[MS + 'ModelState.deep_copy'] = lambda rng: dict(self=_model(rng)[0])
+GENS[AR + 'UserArguments.shallow_copy'] = lambda rng: dict(self=_user_args(rng))
+GENS[AR + 'UserArguments.deep_copy'] = lambda rng: dict(self=_user_args(rng))
+GENS[AR + 'UserArguments.deep_copy#arrays'] = lambda rng: dict(self=_user_args(rng, lam=np.eye(2) * 0.5, beta=np.ones(5)))
+GENS[AR + 'UserArguments.shallow_copy#arrays'] = lambda rng: dict(self=_user_args(rng, lam=np.eye(2) * 0.5, beta=np.ones(5)))
+
+
+@gen(CM + 'update_cluster_member_data_statistics')
+def _(rng):
+    data = farr(rng, 10, 2)
+    return dict(cluster=_cluster(rng, 2, members=sorted(rng.sample(range(10), rng.randint(2, 6)))), training_data=data,
+                use_biased_covariance=rng.random() < 0.5)
+
+
+@gen(CM + 'update_all_cluster_statistics')
+def _(rng):
+    ms, data = _model(rng, sizes=[rng.randint(2, 5) for _ in range(rng.randint(2, 4))])
+    return dict(model=ms, training_data=data)
+
+
+@gen(CM + '_find_point_donor')
+def _(rng):
+    ms, _ = _model(rng)
+    k = len(ms.clusters)
+    ids = rng.sample(range(k), rng.randint(0, k))
+    return dict(model=ms, potential_donor_ids=ids)
+
+
+@gen(CM + '_find_ranked_donor_cluster_ids')
+def _(rng):
+    return dict(model=_model(rng)[0])
+
+
+@gen(CM + '_move_random_points')
+def _(rng):
+    m = rng.randint(1, 2)
+    ms, _ = _model(rng, sizes=[rng.randint(m, 3 * m + 2)] + [rng.randint(0, 3) for _ in range(rng.randint(1, 3))], m=m)
+    return dict(model=ms, donor_cluster_id=0, recipient_cluster_id=rng.randint(1, len(ms.clusters) - 1))
+
+
+@gen(CM + 'repopulate_empty_clusters')
+def _(rng):
+    m = rng.randint(1, 3)
+    k = rng.randint(2, 5)
+    ms, _ = _model(rng, sizes=[rng.randint(0, 3 * m + 2) for _ in range(k)], m=m)
+    return dict(model=ms)
